@@ -358,3 +358,81 @@ def c08_e2e(run, pid, _fn_cases):
     cases = c08_cases(run.rng, 5 if not run.thorough else 60)
     lines, total = run_rig(run, pid, cases, "c08")
     return {"events": len(lines), "nontrivial": total.get("queries", 0), "counters": total}
+
+
+def c16_e2e(run, pid):
+    """floods of refused queries from sources without permission at the real listener; a quiet source at the end"""
+    import dns_ratelimit
+    tf = run.path("flood.ndjson")
+    p = drive(run, "rig", ["flood", "--out", tf, "--n", 800 if not run.thorough else 4000, "--bursts", 2 if not run.thorough else 6], timeout=3600, check=False)
+    lines = open(tf).readlines() if os.path.exists(tf) else []
+    if not any('"endflood"' in l for l in lines):
+        raise ToolError("rig flood did not finish (exit %s): %s" % (p.returncode, (p.stderr or "")[-300:]))
+    B, R = dns_ratelimit.impl_constants()
+    rep = tlc_trace(run, "RateLimitTrace", "RateLimitTrace.cfg", tf, {"Enforce": tla_set([pid]), "ImplB": str(B), "ImplR": str(R)}, tag="flood")
+    record_violations(run, pid, rep["viol"], lines, trace_name="flood")
+    end = json.loads(lines[-1])
+    if end.get("panics", 0):
+        direct_violation(run, pid, "listenerPanicsUnderFlood", "a task of the DNS service panicked during the flood", {"trace": tf})
+    return {"events": len(lines), "refused_received": rep["stats"]["granted"], "queries": rep["stats"]["reqs"], "quiet_sources": rep["stats"]["quiet"]}
+
+
+# ------------------------------------------------------------------ C06 ----
+def c06_cases(rng, n):
+    """per case a dozen names with short TTL vectors; every name is asked again and again (same key, near-miss
+    keys in waves of their own so that the upstream query can be attributed by time)"""
+    cases = []
+    ids = Ids(rng)
+    for ci in range(n):
+        scripts = {"default": {"kind": "ok", "ttl": 0}}
+        names = []
+        for k in range(10):
+            name = [ids.uniq(), "c06", "example"]
+            m = rng.choice([0, 1, 1, 2, 2, 3, 4, 60])
+            # the minimum sits in any of the three sections
+            ttls = [rng.choice([m + 1, m + 5, 3600, 2 ** 31]) for _ in range(3)]
+            ttls[rng.randrange(3)] = m
+            scripts[tok(name)] = {"kind": "ok", "ttls": ttls, "rcode": 0, "reply_seed": rng.randrange(10 ** 6), "reply_nrec": rng.choice([3, 4, 6])}
+            names.append((name, m))
+        queries = []
+        def ask(wave, sleep_first=0, **kw):
+            first = True
+            for (name, m) in names:
+                nm = [l.upper() for l in name] if kw.get("upper") and rng.random() < 0.5 else name
+                queries.append(q(ids, len(queries) + 1, nm, wave=wave, cached=True, adv=1232, listener=rng.choice(["v4", "dual4", "v6"]),
+                                 proto=rng.choice(["udp", "udp", "tcp"]), sleep_before_ms=(sleep_first if first else 0),
+                                 **{k: v for k, v in kw.items() if k != "upper"}))
+                first = False
+        ask(0)
+        ask(1, 300, upper=True)             # same key shortly after: may come from the cache
+        ask(2, 0, cd=True)                  # near-miss keys: must not be answered from the entry above
+        ask(3, 0, do=True)
+        ask(4, 0, qtype=28)
+        ask(5, 700, upper=True)             # ~1.2 s after the first answers
+        ask(6, 1100)                        # ~2.4 s
+        ask(7, 1100, cd=True)               # ~3.6 s (the CD entries are ~3.2 s old)
+        ask(8, 1300)                        # ~5 s
+        cases.append({"routes": [{"suffixes": [""], "kind": "forward", "up": 1 + ci % 3}], "acls": None, "scripts": scripts, "queries": queries, "settle_ms": 100, "meta": {"kind": "c06"}})
+    return cases
+
+
+def c06_e2e(run, pid):
+    cases = c06_cases(run.rng, 1 if not run.thorough else 12)
+    cf = run.path("rig-c06.ndjson")
+    open(cf, "w").write("".join(json.dumps(c) + "\n" for c in cases))
+    tf = run.path("rigtrace-c06.ndjson")
+    p = drive(run, "rig", ["dns", "--cases", cf, "--out", tf], timeout=3000, check=False)
+    if p.returncode != 0:
+        raise ToolError("rig failed: %s" % p.stderr.strip()[-500:])
+    lines = open(tf).readlines()
+    total = {}
+    idx = [i for i, ln in enumerate(lines) if '"ev":"case"' in ln[:400]] + [len(lines)]
+    for gi, (a, b) in enumerate(zip(idx, idx[1:])):
+        part = lines[a:b]
+        pf = run.path("rigpart-c06-%d.ndjson" % gi)
+        open(pf, "w").write("".join(part))
+        rep = tlc_trace(run, "CacheE2ETrace", "CacheE2ETrace.cfg", pf, tag="c06e%d" % gi)
+        record_violations(run, pid, rep["viol"], part, trace_name="rig-c06-%d" % gi, whole_case=True)
+        for k, v in rep["stats"].items():
+            total[k] = total.get(k, 0) + v
+    return {"events": len(lines), "counters": total}
